@@ -911,6 +911,60 @@ func runC12(c Case, m *Model) (v Verdict) {
 			v.Tags = append(v.Tags, "timing-alarm-not-reproduced")
 		}
 	}
+	// 4b. the same reader used again with other ports (every third case): the second playback must send the same
+	// messages in the same order to the ports of ITS map (port ids shifted by 100)
+	if hk := len(c.Op); hk%3 == 0 && p.err == nil && len(p.sends) > 0 {
+		var second []c12Send
+		var err2 error
+		pn := try(func() {
+			rd := smf.ReadTracksFrom(bytes.NewReader(file.Bytes()), cs.sel...)
+			rec1 := &c12Recorder{sends: make([]c12Send, 0, 1024)}
+			rec2 := &c12Recorder{sends: make([]c12Send, 0, 1024)}
+			mk := func(rec *c12Recorder, shift int) (drivers.Out, map[int]drivers.Out) {
+				outs := map[int]*c12Out{}
+				get := func(id int) *c12Out {
+					if outs[id] == nil {
+						outs[id] = &c12Out{id: id + shift, rec: rec}
+					}
+					return outs[id]
+				}
+				pm := map[int]drivers.Out{}
+				for _, kv := range cs.pm {
+					pm[kv[0]] = get(kv[1])
+				}
+				return get(cs.port), pm
+			}
+			o1, pm1 := mk(rec1, 0)
+			o2, pm2 := mk(rec2, 100)
+			if cs.api == "one" {
+				if rd.Play(o1) == nil {
+					err2 = rd.Play(o2)
+				}
+			} else {
+				if rd.MultiPlay(pm1) == nil {
+					err2 = rd.MultiPlay(pm2)
+				}
+			}
+			second = rec2.sends
+		})
+		v.Tags = append(v.Tags, "reader-played-twice")
+		switch {
+		case pn != "":
+			v.Oracle = append(v.Oracle, "second playback on the same reader panicked: "+pn)
+		case err2 != nil:
+			v.Oracle = append(v.Oracle, "second playback on the same reader failed: "+err2.Error())
+		case len(second) != len(p.sends):
+			v.Oracle = append(v.Oracle, fmt.Sprintf("second playback on the same reader (ports shifted by 100) sent %d messages to its ports, the first %d", len(second), len(p.sends)))
+		default:
+			for i := range second {
+				if string(second[i].data) != string(p.sends[i].data) || second[i].port != p.sends[i].port+100 {
+					v.Oracle = append(v.Oracle, fmt.Sprintf("second playback on the same reader: send %d is % X to port %d, expected % X to port %d",
+						i, second[i].data, second[i].port, p.sends[i].data, p.sends[i].port+100))
+					break
+				}
+			}
+		}
+	}
 	// 5. the property, judged on the recorded sends from the file as built
 	count := map[string]int{}
 	lastIdx := map[int]int{}
